@@ -54,7 +54,7 @@ PROPS["C01"] = {
              "blocks, or an entry length >= 128, or an empty key/value, or a key byte >= 0x80, or a non-default "
              "configuration; distinct = distinct FNV-1a hash of the serialised case."),
     "expect_tags": ["multi_block", "len_ge128", "len_ge16k", "empty_key_or_value", "byte_ge80", "entry_gt_block", "pooled",
-                    "foreign_prefix", "explicit_level", "dump_filter_selective", "dump_text_mode", "comp_0", "comp_1", "comp_2", "comp_3",
+                    "foreign_prefix", "sparse_offset_ge_2GiB", "explicit_level", "dump_filter_selective", "dump_text_mode", "comp_0", "comp_1", "comp_2", "comp_3",
                     "comp_4", "comp_5"],
     "assumptions": TABLE_ASSUME,
     "tiers": {
@@ -106,7 +106,7 @@ PROPS["C09"] = {
              "varints), size rule in both directions, decoded content = accepted entries. Non-trivial: >= 2 data blocks or a "
              "non-default configuration."),
     "expect_tags": ["multi_block", "index_multi_restart", "block_multi_restart", "oversize_single_entry_block",
-                    "has_refused_adds", "foreign_prefix", "pooled", "empty_table"],
+                    "has_refused_adds", "foreign_prefix", "sparse_offset_ge_2GiB", "pooled", "empty_table"],
     "assumptions": TABLE_ASSUME + ["the independent decoder in harness/refcodec.h implements the documented format"],
     "tiers": WRITER_TIERS,
     "evidence_extra": {
@@ -126,7 +126,7 @@ PROPS["C10"] = {
              "measured on the output file by the independent decoder (and cross-checked against the model of accepted adds); "
              "compared with all ten mtbl_metadata_* accessors and with the parsed output of mtbl_info (LC_ALL=C). "
              "Non-trivial: >= 2 data blocks, or refused adds, or a foreign prefix, or a pooled writer, or the empty table."),
-    "expect_tags": ["multi_block", "has_refused_adds", "foreign_prefix", "pooled", "empty_table", "clamped_block_size"],
+    "expect_tags": ["multi_block", "has_refused_adds", "foreign_prefix", "sparse_offset_ge_2GiB", "pooled", "empty_table", "clamped_block_size"],
     "assumptions": TABLE_ASSUME,
     "tiers": WRITER_TIERS,
 }
@@ -223,7 +223,7 @@ PROPS["C05"] = {
              "a history containing at least one next and one seek."),
     "expect_tags": ["sources_with_different_key_sets", "keys_needing_merge", "seek_to_key_just_returned", "backward_seek",
                     "seek_after_failure", "lookups_through_merger_source", "kind_0", "kind_1", "kind_2", "kind_3", "user_defined_source",
-                    "no_merge_function_disjoint_sources"],
+                    "no_merge_function_disjoint_sources", "no_merge_function_duplicates_ordered_by_dupsort", "nested_merger_as_source"],
     "assumptions": TABLE_ASSUME,
     "tiers": {
         "quick": [{"mode": "rc", "cases": 1500, "max_size": 100}],
